@@ -555,6 +555,9 @@ func (vc *VC) modTargetKeys(fc *FuncContract, m string) []string {
 			return []string{"#fifo.recvn"}
 		case "heap":
 			return []string{vc.resolveHeapKey(x.Args[0])}
+		case "mapof":
+			// the content of a map: every map heap (conservative for a loop that calls the function)
+			return []string{"#map"}
 		}
 	}
 	// type-directed: evaluate in a throw-away environment to find the key
